@@ -461,11 +461,44 @@ def recursive_family(rng):
     return g
 
 
+def memo_family(rng):
+    """R0 <- R1 t / R2 u / R1 v   with R1 and R2 matching the same text: R1 succeeds inside an alternative that then fails, R2 (or a
+    capture, or an action) overwrites the token slots R1 used, that alternative fails too, and R1 is re-entered at the same
+    position AND the same token index — a memo hit whose tokens must be copied back."""
+    ts = rng.sample('abcdefghijklmnopqrstuvwxyz', 6)
+    c = lambda ch: ('chr', ch)
+    g = G.__new__(G)
+    g.rng, g.n, g.shape, g.alpha = rng, 4, 'core', sorted(set(ts[:4]))
+    g.nact = g.nstmt = 0
+    g.has_capture = False
+    g.cur = 0
+    variant = rng.randrange(3)
+    if variant == 0:
+        second = ('seq', [('name', 2), c(ts[2])])
+    elif variant == 1:
+        g.has_capture = True
+        second = ('seq', [('cap', c(ts[0])), c(ts[2])])
+    else:
+        g.nact = 1
+        second = ('seq', [('act', 0), c(ts[0]), c(ts[2])])
+    g.rules = [
+        ('seq', [('alt', [('seq', [('name', 1), c(ts[1])]), second, ('seq', [('name', 1), c(ts[3])])], False), ('not', ('dot',))]),
+        ('seq', [('name', 3)]) if rng.random() < 0.5 else c(ts[0]),
+        c(ts[0]),
+        c(ts[0]),
+    ]
+    g.nullable = [False, False, False, False]
+    g.extra_inputs = [ts[0] + ts[3], ts[0] + ts[2], ts[0] + ts[1], ts[0], ts[0] + ts[3] + ts[3]]
+    return g
+
+
 def gen_grammar(seed, idx, shape='core'):
     rng = random.Random('%s/%s/%s' % (seed, shape, idx))
     n = rng.choice([1, 2, 2, 3, 3, 4, 5])
     if shape == 'switch' and idx % 10 == 9:
         return recursive_family(rng)
+    if shape == 'core' and idx % 10 == 9:
+        return memo_family(rng)
     g = G(rng, n, shape)
     if shape == 'switch' and n >= 3 and rng.random() < 0.35:
         perm = list(range(n))
